@@ -1,5 +1,6 @@
 """C17 — shutdown is graceful (structure only; timing and exit status are not decided)."""
 from mirlib import *
+from common import completed_request_release_findings
 
 H = "pgcat::client::Client::handle::{closure#0}"
 EP = "pgcat::client::client_entrypoint::{closure#0}"
@@ -44,6 +45,13 @@ def run(ctx):
                 if b and n != H and any("shutdown" in proj_fields(p) for _, p, how in all_places(b)) and "client::Client" in n:
                     bad.append(n)
             r1.check(not bad, "helpers-blind", "no helper reachable from the transaction loop touches Client.shutdown", "helpers that touch the shutdown receiver: %s" % bad)
+            # `transaction-mode clients idle between transactions are disconnected`: such a client is in the idle loop, where the broadcast is heard - the transaction
+            # loop is left as soon as a request is complete outside a transaction, also when pgcat answered it itself (D83)
+            crr = completed_request_release_findings(F)
+            if crr is None:
+                r1.missing("transaction loop / message-code switch in handle")
+            for key, ok, good, bad_ in crr or []:
+                r1.check(ok, key, good, bad_)
             # what happens when shutdown fires: find the select output switch arm whose region contains error_response_terminal with the administrator text
             term = [c for c in h.calls("pgcat::messages::error_response_terminal") if any("administrator command" in s_ for s_ in arg_strs(h, c)) and c.block not in inner_blocks]
             if not term:
